@@ -7,6 +7,7 @@
  *   argv[1] = script: tasks separated by '/', task 0 is the main process; ops separated by ','
  *     T<name>          mkdirat(AT_FDCWD, name, 0700)            -- the *traced* marker call
  *     U<name>          mkdir(name, 0700)                        -- untraced (filter allows it)
+ *     N<name>          symlink("x", name)                       -- traced, decided by its NAME only (CheckSyscall)
  *     F<k> V<k> C<k>   fork / vfork (CLONE_VM|CLONE_VFORK, own stack) / thread running task k
  *     W                wait for every task this task created (wait4 / futex on the cleared tid)
  *     S                queue SIGUSR1 to itself; result = number of times the handler ran
@@ -42,6 +43,7 @@ typedef long i64;
 #define SYS_wait4 61
 #define SYS_kill 62
 #define SYS_mkdir 83
+#define SYS_symlink 88
 #define SYS_setsid 112
 #define SYS_getpriority 140
 #define SYS_gettid 186
@@ -179,7 +181,7 @@ static int parse(const char *s)
 		struct op *o = &tk->ops[tk->nops++];
 		o->kind = *s++;
 		switch (o->kind) {
-		case 'T': case 'U': {
+		case 'T': case 'U': case 'N': {
 			int n = 0;
 			while (*s && *s != ',' && *s != '/' && n < 23) o->name[n++] = *s++;
 			o->name[n] = 0;
@@ -286,6 +288,7 @@ static long run_task(void *p)
 		switch (o->kind) {
 		case 'T': r = sys3(SYS_mkdirat, AT_FDCWD, o->name, 0700); break;
 		case 'U': r = sys3(SYS_mkdir, o->name, 0700, 0); break;
+		case 'N': r = sys3(SYS_symlink, "x", o->name, 0); break;
 		case 'F': case 'V': case 'C':
 			r = spawn(o->kind, (int)o->num);
 			if (r > 0) { kids[nk] = (int)o->num; kkind[nk++] = o->kind; r = 1; }
